@@ -64,6 +64,15 @@ def _ambiguous(ns, uterm, v):
     """Is there a member Aj that v is an instance of, and an earlier declared member Ai that demonstrably
     accepts v (marshal side) or Aj's wire form (unmarshal side)? Uses independently built member routines."""
     ordered = uterm.ordered()
+    if uterm.none_at is not None:
+        # C08: "if None is a member, at whatever position, and x is None the result is None" - the None member
+        # is effectively the earliest one; a value whose wire form is None is therefore ambiguous.
+        for aj in uterm.members:
+            if aj.conforms(ns, v, strict=True):
+                _, mj, _ = E.routines_for(aj, ns)
+                wj = call(mj.val, v) if mj.ok else None
+                if wj is not None and wj.ok and wj.val is None:
+                    return True
     for j, aj in enumerate(ordered):
         if aj is None or not aj.conforms(ns, v, strict=True):
             continue
@@ -80,9 +89,50 @@ def _ambiguous(ns, uterm, v):
     return False
 
 
+def _explained_by_first_acceptor(ns, uterm, v):
+    """The weak law fails at this union position.  Is the implementation nevertheless doing exactly what the
+    first-acceptor rule (C08) prescribes, computed from the member routines built independently - i.e. is the
+    failure inherent to members that accept (coerce) foreign values?  True = explained; False = the union
+    routine itself deviates from the member-wise reference."""
+    from ..kernel.guard import Out
+
+    ann = uterm.ann(ns)
+    mem = []
+    for ai in uterm.members:
+        _, mi, ui = E.routines_for(ai, ns)
+        if not (mi.ok and ui.ok):
+            return False
+        mem.append((mi.val, ui.val))
+
+    def ref(x, idx):
+        if uterm.none_at is not None and x is None:
+            return Out(True, None)
+        for pair in mem:
+            o = call(pair[idx], x)
+            if o.ok:
+                return o
+        return Out(False, exc=ValueError("all members reject"))
+
+    def agree(a, b):
+        return a.ok == b.ok and (not a.ok or same(a.val, b.val))
+
+    m = call(typelib.marshal, v, t=ann)
+    if not agree(m, ref(v, 0)):
+        return False
+    if not m.ok:
+        return True
+    u = call(typelib.unmarshal, ann, m.val)
+    if not agree(u, ref(m.val, 1)):
+        return False
+    if not u.ok:
+        return True
+    m2 = call(typelib.marshal, u.val, t=ann)
+    return agree(m2, ref(u.val, 0))
+
+
 def _has_ambiguous_union(ns, term, v):
     """Some union position on the path of v is ambiguous for the value found there."""
-    if term.kind == "union" and v is not None and _ambiguous(ns, term, v):
+    if term.kind in ("union", "optional") and not (v is None and term.none_at is not None) and _ambiguous(ns, term, v):
         return True
     if term.kind in ("union", "optional"):
         if v is None:
@@ -92,7 +142,7 @@ def _has_ambiguous_union(ns, term, v):
                 return True
         return False
     for mt, mv in term.decompose(ns, v):
-        if mt.has_union and _has_ambiguous_union(ns, mt, mv):
+        if (mt.has_union or mt.has_opt) and _has_ambiguous_union(ns, mt, mv):
             return True
     return False
 
@@ -108,7 +158,7 @@ def check_value(prog, v, res, case):
     if mode is None:
         return
     # ---- failure: ambiguity excuse, then localisation
-    if term.has_union and _has_ambiguous_union(ns, term, v):
+    if (term.has_union or term.has_opt) and _has_ambiguous_union(ns, term, v):
         res.hit("ambiguous-union-weak-law")
         if _weak(prog.ann, v):
             return
@@ -119,7 +169,7 @@ def check_value(prog, v, res, case):
             md, _, _ = _rt(ann, x)
             if md is None:
                 return None
-            if t.has_union and _has_ambiguous_union(ns, t, x):
+            if (t.has_union or t.has_opt) and _has_ambiguous_union(ns, t, x):
                 return None if _weak(ann, x) else "weak-law"
             return md
     else:
@@ -129,6 +179,13 @@ def check_value(prog, v, res, case):
             return md
 
     loc = E.localize(ns, term, v, fails)
+    if loc is not None and loc[2] == "weak-law" and loc[0].kind in ("union", "optional"):
+        if _explained_by_first_acceptor(ns, loc[0], loc[1]):
+            res.hit("weak-law-fails-under-first-acceptor-semantics")
+            res.violation("C01/weak/first-acceptor-semantics",
+                          f"weak fixpoint fails although the union does exactly what the first-acceptor rule prescribes (a member coerces a foreign value): "
+                          f"{loc[0].src}, v={short(loc[1], 80)}, wire={short(m.val if m is not None and m.ok else None, 60)}", case)
+            return
     if loc is None:
         # fails as a whole but not when re-run: should not happen (deterministic); report as composite
         loc = (term, v, mode)
